@@ -442,6 +442,7 @@ func runC04(c *Ctx) {
 	ruleAliasSpelledAsDeclared(c, "C04.19")
 	ruleAsyncFlag(c, "C04.20")
 	ruleChanDirMapping(c, "C04.21", genPkg)
+	rulePairedEdges(c, "C04.22")
 	ruleEllipsisOnlyLast(c, "C04.6")
 
 	// C04.10 user identifiers reach the allocator (shared with C12): otherwise a generated local can shadow a user name
